@@ -61,7 +61,7 @@ def build(program: dict) -> dict:
         for phase in ("prepare", "start"):
             # (the second callback of a prepare() returns a non-coroutine awaitable, the second one of a start() registers one more
             # callback while the teardown is running)
-            steps: list = [("td", f"td:{p}:{phase}"), ("gate", "g"), ("tdn" if phase == "start" else "tdaw", f"td2:{p}:{phase}")]
+            steps: list = [("td", f"td:{p}:{phase}"), ("tds", f"td3:{p}:{phase}"), ("gate", "g"), ("tdn" if phase == "start" else "tdaw", f"td2:{p}:{phase}")]
             nd[phase] = steps
     end = program["end"]
     root = paths(spec)[0][1]
